@@ -48,7 +48,7 @@ def multi_proc_programs(rng, n):
         np_ = rng.randint(1, 8)
         # names of every length class: short, around the width of the trace's label column (12), long, and pairs sharing a long prefix
         pool = ['q', 'p2', 'fn', 'accumulate', 'accumulator1', 'update_totals', 'a_rather_long_procedure_name', 'update_running_checksum_of_buffer_a',
-                'update_running_checksum_of_buffer_b', 'x' * 40, 'Zz_9', 'step']
+                'update_running_checksum_of_buffer_b', 'x' * 40, 'Zz_9', 'step', 'y' * 90, 'a_procedure_name_that_is_longer_than_any_column_of_any_listing_or_trace_x']
         rng.shuffle(pool)
         names = [pool[i] if rng.random() < 0.6 else 'q%d' % i for i in range(np_)]
         procs = {}
